@@ -115,8 +115,9 @@ KINDS = {
     "marks": dict(name="marks", ann="KeyedSet[Keyed, str]",
                   conf=[["KeyedSet", []], ["KeyedSet", [["Keyed", {"key": "a"}]]],
                         ["list", [["Keyed", {"key": "a", "n": 1}], ["Keyed", {"key": "b"}]]],
-                        ["KeyedSet", [["Keyed", {"key": "a", "n": 1}], ["Keyed", {"key": "b"}]]]],
-                  small_conf=[2, 3],
+                        ["KeyedSet", [["Keyed", {"key": "a", "n": 1}], ["Keyed", {"key": "b"}]]],
+                        ["KeyedSetE", [["Keyed", {"key": "a"}], ["Keyed", {"key": "b"}]]]],  # enforce_item_equivalence=True: add() can refuse
+                  small_conf=[2, 3, 4],
                   bad=[["list", [5]], ["RawKeyedSet", [1, 2]]], mut="KeyedSet[Keyed, str]([Keyed('d')])", mut_spec=["KeyedSet", [["Keyed", {"key": "d"}]]],
                   item="mark", items=[["Keyed", {"key": "a"}], ["Keyed", {"key": "b", "n": 1}], "c"], bad_items=[5],
                   nested_item="Keyed"),
@@ -449,6 +450,8 @@ class Env:
                 return self.KeyedList[self.Keyed, str]([self.mk(x) for x in spec[1]])
             if tag == "KeyedSet":
                 return self.KeyedSet[self.Keyed, str]([self.mk(x) for x in spec[1]])
+            if tag == "KeyedSetE":
+                return self.KeyedSet[self.Keyed, str]([self.mk(x) for x in spec[1]], enforce_item_equivalence=True)
             if tag == "RawKeyedList":
                 return self.KeyedList([self.mk(x) for x in spec[1]])
             if tag == "RawKeyedSet":
